@@ -240,8 +240,9 @@ class Env:
             inherited = {f[0] for f in self.defs[base]["fields"]}
             fields = [f for f in fields if f[0] not in inherited]
         lines = []
-        if fl in ("dataclass", "dc_slots", "dc_kwonly", "dc_frozen", "dc_call"):
-            opts = {"dataclass": "", "dc_slots": "slots=True", "dc_kwonly": "kw_only=True", "dc_frozen": "frozen=True", "dc_call": ""}[fl]
+        if fl in ("dataclass", "dc_slots", "dc_kwonly", "dc_frozen", "dc_call", "dc_falsy"):
+            opts = {"dataclass": "", "dc_slots": "slots=True", "dc_kwonly": "kw_only=True", "dc_frozen": "frozen=True", "dc_call": "",
+                    "dc_falsy": ""}[fl]
             lines.append(f"@dataclasses.dataclass({opts})")
             lines.append(f"class {name}{bases}:")
             for fn, src, has_d, T in fields:
@@ -249,6 +250,8 @@ class Env:
                     lines.append(f"    {fn}: {src} = dataclasses.field(init=False, default={dsrc[fn]})")
                     continue
                 lines.append(f"    {fn}: {src}" + (f" = {dsrc[fn]}" if has_d else ""))
+            if fl == "dc_falsy":        # instances are falsy and claim length 0: still records with members
+                lines.append("    def __bool__(self):\n        return False\n    def __len__(self):\n        return 0")
             if fl == "dc_call":         # instances can be called: still a structured class
                 lines.append("    def __call__(self, *a):\n        return a")
         elif fl == "namedtuple":
@@ -314,7 +317,7 @@ class Env:
             raise ValueError(fl)
         if len(lines) == 2 and lines[-1].endswith(":"):
             lines.append("    pass")
-        if not fields and fl in ("dataclass", "dc_slots", "dc_kwonly", "dc_frozen", "dc_call", "namedtuple", "typeddict", "typeddict_nr", "typeddict_te"):
+        if not fields and fl in ("dataclass", "dc_slots", "dc_kwonly", "dc_frozen", "dc_call", "dc_falsy", "namedtuple", "typeddict", "typeddict_nr", "typeddict_te"):
             lines.append("    pass")
         return "\n".join(lines)
 
